@@ -585,7 +585,7 @@ fn apply(case: &Case, p: &mut Psbt, op: &Op) -> String {
             Op::Drop(i) => { p.inputs[*i].witness_utxo = None; p.inputs[*i].non_witness_utxo = None; "ok".into() }
             Op::Restore(i) => { set_utxo(p, &case.inputs[*i], *i); "ok".into() }
             Op::ShortPrev(i) => {
-                // F8: only a previous transaction, with fewer outputs than the spent vout
+                // (former F8) only a previous transaction, with fewer outputs than the spent vout
                 let mut prev = case.inputs[*i].prev_tx.clone();
                 prev.output.truncate(p.unsigned_tx.input[*i].previous_output.vout as usize);
                 p.inputs[*i].witness_utxo = None;
@@ -806,9 +806,7 @@ impl Oracle {
             Op::Fin | Op::OldFin => (0..n).map(|i| (i, false)).collect(),
             Op::FinMall | Op::OldFinMall => (0..n).map(|i| (i, true)).collect(),
             Op::FinInp(i) if *i < n => vec![(*i, false)],
-            // the model follows the code: finalize_inp_mall_mut passes allow_mall = false; both
-            // values are supplied so that the line also supports the corrected variant
-            Op::FinInpMall(i) if *i < n => vec![(*i, false), (*i, true)],
+            Op::FinInpMall(i) if *i < n => vec![(*i, true)],
             _ => vec![],
         };
         for (i, mall) in targets {
@@ -956,9 +954,8 @@ fn run_history(out: &mut Out, case: &Case, hist: &[Op], judged: &mut BTreeSet<St
         out.line(&format!("C psbtstep {} {} {}", setup, h, oracle.tok()), &format!("{} {}", res, abs_state(&p)));
         out.count(&format!("op {} {}", op.tok().chars().next().unwrap(), if res.starts_with("ok") { "ok".to_string() } else { res.split(|c| c == ':' || c == '@').take(2).collect::<Vec<_>>().join(":") }));
         let id = format!("{} {}", case.label, h);
-        // a panic after a `v` operation is F8 (the model predicts it: C line; reported by the
-        // deterministic `J nopanic psbt vout-out-of-range` cases); any other panic is judged here
-        if res == "panic" && !sofar.iter().any(|o| matches!(o, Op::ShortPrev(_))) { out.line(&format!("J nopanic psbt history {} PANIC", id), "ok"); }
+        // no operation of any history may panic (F8 / F8b are repaired; `v` = short previous tx)
+        if res == "panic" { out.line(&format!("J nopanic psbt history {} PANIC", id), "ok"); }
         if op.is_finalize() || *op == Op::Extract {
             // final-untouched
             let mut bad = None;
@@ -997,7 +994,7 @@ fn run_history(out: &mut Out, case: &Case, hist: &[Op], judged: &mut BTreeSet<St
             // mode-honoured: a freshly written scriptSig/witness is the one the satisfier yields in
             // the mode the entry point is documented to use (non-malleable unless `_mall`)
             {
-                let modes: Vec<bool> = match op { Op::Fin | Op::OldFin | Op::FinInp(_) => vec![false], Op::FinMall | Op::OldFinMall => vec![true], _ => vec![false, true] };
+                let modes: Vec<bool> = match op { Op::Fin | Op::OldFin | Op::FinInp(_) => vec![false], _ => vec![true] };
                 let mut bad = None;
                 for i in 0..p.inputs.len() {
                     if !is_final(&before.inputs[i]) && is_final(&p.inputs[i]) {
@@ -1266,7 +1263,7 @@ fn judge_nopanic(out: &mut Out, pool: &[Spec], rng: &mut Rng) {
         for i in 0..2 { for op in progress_ops(&case, i) { apply(&case, &mut ready, &op); } }
         let mut variants: Vec<(&str, Psbt)> = vec![];
         { let mut p = ready.clone(); p.inputs[0].witness_utxo = None; p.inputs[0].non_witness_utxo = None; variants.push(("missing-utxo", p)); }
-        {   // F8: the previous transaction has fewer outputs than `vout`
+        {   // (former F8) the previous transaction has fewer outputs than `vout`
             let mut p = ready.clone();
             let mut prev = case.inputs[0].prev_tx.clone();
             prev.output.truncate(p.unsigned_tx.input[0].previous_output.vout as usize);
